@@ -5,13 +5,16 @@ Account ids used by the model (coq/Model/PriceDiscovery.v): 1..NUSERS = plain us
 (an ordinary depositor as far as the contract's endpoints are concerned).
 Token codes of payments: 1 = launched token, 2 = accepted token, 3 = a foreign token.
 Redeem-token nonces: 1 = received for launched tokens, 2 = received for accepted tokens; any other
-"nonce" in a Withdraw/Redeem op means: pay with the foreign fungible token instead.
+"nonce" in a Withdraw/Redeem op means: pay with a foreign token instead - 11 / 12: the foreign SEMI-fungible token
+OTHERSFT with nonce 1 / 2 (same nonces as the redeem tokens, different token id); anything else: the foreign
+fungible token.
 """
 import random
 from vmx import *
 
 TL, TA, TX = b"LAUNCH-abcdef", b"USDC-abcdef", b"OTHER-abcdef"
 TR, TLK = b"REDEEM-abcdef", b"LOCKED-abcdef"
+TXS = b"OTHERSFT-abcdef"
 T = {1: TL, 2: TA, 3: TX}
 NUSERS = 3
 OWNER = 100
@@ -78,6 +81,8 @@ class PDWorld:
         for u in ACCOUNTS:
             for t in (1, 2, 3):
                 vm.setbal(self.addr[u], T[t], 0, BIG)
+            for n in (1, 2):
+                vm.setbal(self.addr[u], TXS, n, 10 ** 6)
         self.last = self.observe_state()
         self.obs0 = dict(self.last, ok=True, outs=[])
 
@@ -138,7 +143,7 @@ class PDWorld:
                 r = vm.call(A[caller], self.pd, "deposit", [], [(T[tok], 0, amt)])
             elif k in ("Withdraw", "Redeem"):
                 _, caller, nonce, amt = op
-                pay = (TR, nonce, amt) if nonce in (1, 2) else (TX, 0, amt)
+                pay = (TR, nonce, amt) if nonce in (1, 2) else (TXS, nonce - 10, amt) if nonce in (11, 12) else (TX, 0, amt)
                 r = vm.call(A[caller], self.pd, "withdraw" if k == "Withdraw" else "redeem", [], [pay])
             elif k == "Xfer":
                 _, src, dst, nonce, amt = op
@@ -269,8 +274,13 @@ def gen_invalid(rng, w):
         u, n = rng.choice(hs)
         have = (s["h1"] if n == 1 else s["h2"])[u]
         return [rng.choice(["Withdraw", "Redeem"]), u, n, have + rng.choice([1, 1, 2, have + 1])]
-    if k < 0.55:
+    if k < 0.47:
         return [rng.choice(["Withdraw", "Redeem"]), c, rng.choice([0, 3]), log_amount(rng, 10 ** 6)]
+    if k < 0.55:
+        # a foreign SFT that shares the redeem tokens' nonces; small amounts (the contract itself holds one unit of each
+        # redeem nonce) in the phase where the endpoint is open
+        ep = "Redeem" if s["phase"] == 4 else rng.choice(["Withdraw", "Withdraw", "Redeem"])
+        return [ep, c, rng.choice([11, 12]), rng.choice([1, 1, 1, 2, log_amount(rng, 10 ** 4)])]
     if k < 0.7 and hs:
         u, n = rng.choice(hs)
         have = (s["h1"] if n == 1 else s["h2"])[u]
